@@ -68,6 +68,14 @@ fn gen_label(r: &mut Rng) -> Vec<u8> {
 
 /// absolute name in wire format, at most 255 octets
 fn gen_name(r: &mut Rng) -> Vec<u8> {
+    if r.chance(1, 25) {
+        // a name of exactly 255 (or 254) octets: labels of 63, 63, 63 and 61 (60) octets
+        let mut w = Vec::new();
+        let last = if r.chance(1, 2) { 61 } else { 60 };
+        for n in [63usize, 63, 63, last] { w.push(n as u8); for _ in 0..n { w.push(if r.chance(1, 8) { octet(r) } else { b'a' + r.below(26) as u8 }); } }
+        w.push(0);
+        return w;
+    }
     let mut w = Vec::new();
     let nlab = match r.below(10) { 0 => 0, 1..=4 => 1, 5..=7 => 2, 8 => 3, _ => r.below(12) as usize };
     for _ in 0..nlab {
@@ -196,11 +204,11 @@ fn gen_rdata(r: &mut Rng, rt: u16) -> Vec<u8> {
         48 | 60 => { v.extend(ext_u16(r).to_be_bytes()); v.push(ext_u8(r)); v.push(ext_u8(r)); v.extend(gen_blob(r, 80)); }
         50 => {
             v.push(ext_u8(r)); v.push(ext_u8(r)); v.extend(ext_u16(r).to_be_bytes());
-            let s = gen_blob(r, 20); v.push(s.len() as u8); v.extend(s);
-            let h = gen_blob(r, 32); v.push(h.len() as u8); v.extend(h);
+            let s = { let m = if r.chance(1, 4) { 255 } else { 20 }; gen_blob(r, m) }; v.push(s.len() as u8); v.extend(s);
+            let h = { let m = if r.chance(1, 4) { 255 } else { 32 }; gen_blob(r, m) }; v.push(h.len() as u8); v.extend(h);
             v.extend(gen_bitmap(r));
         }
-        51 => { v.push(ext_u8(r)); v.push(ext_u8(r)); v.extend(ext_u16(r).to_be_bytes()); let s = gen_blob(r, 20); v.push(s.len() as u8); v.extend(s); }
+        51 => { v.push(ext_u8(r)); v.push(ext_u8(r)); v.extend(ext_u16(r).to_be_bytes()); let s = { let m = if r.chance(1, 4) { 255 } else { 20 }; gen_blob(r, m) }; v.push(s.len() as u8); v.extend(s); }
         52 => { v.push(ext_u8(r)); v.push(ext_u8(r)); v.push(ext_u8(r)); v.extend(gen_blob(r, 64)); }
         61 => v.extend(gen_blob(r, 80)),
         63 => { v.extend(ext_u32(r).to_be_bytes()); v.push(ext_u8(r)); v.push(ext_u8(r)); v.extend(gen_blob(r, 64)); }
@@ -736,8 +744,8 @@ fn gen_field(r: &mut Rng, f: Fs) -> (Vec<u8>, String) {
             }
             (w, format!("t{}", ts.iter().map(|x| x.to_string()).collect::<Vec<_>>().join(",")))
         }
-        Salt => { let b = gen_blob(r, 20); let mut w = vec![b.len() as u8]; w.extend(&b); (w, format!("s{}", hex(&b))) }
-        B32 => { let b = { let mut b = gen_blob(r, 32); if b.is_empty() && r.chance(3, 4) { b.push(r.u8()); } b }; let mut w = vec![b.len() as u8]; w.extend(&b); (w, format!("z{}", hex(&b))) }
+        Salt => { let b = { let m = if r.chance(1, 4) { 255 } else { 20 }; gen_blob(r, m) }; let mut w = vec![b.len() as u8]; w.extend(&b); (w, format!("s{}", hex(&b))) }
+        B32 => { let b = { let mut b = { let m = if r.chance(1, 4) { 255 } else { 32 }; gen_blob(r, m) }; if b.is_empty() && r.chance(3, 4) { b.push(r.u8()); } b }; let mut w = vec![b.len() as u8]; w.extend(&b); (w, format!("z{}", hex(&b))) }
         Tag => { let n = 1 + r.below(8) as usize; let b: Vec<u8> = (0..n).map(|_| *r.pick(b"abcxyzABCXYZ0123456789")).collect(); let mut w = vec![n as u8]; w.extend(&b); (w, format!("w{}", hex(&b))) }
         Quoted => { let b = gen_blob(r, 60); let t = format!("o{}", hex(&b)); (b, t) }
         Cstrs => {
@@ -1120,6 +1128,32 @@ fn main() {
         }
     }
 
+
+    // ---- T2: the 255 octet limits of the NSEC3 salt and next-owner hash (texts of 0..300 octets)
+    for n in [0usize, 1, 2, 127, 253, 254, 255, 256, 257, 300] {
+        for which in 0..2 {
+            let data: Vec<u8> = (0..n).map(|i| (i * 7 + 3) as u8).collect();
+            let tok: Vec<u8> = if which == 0 { if n == 0 { b"-".to_vec() } else { data.iter().map(|x| format!("{:02X}", x)).collect::<String>().into_bytes() } }
+                               else { domain::utils::base32::encode_string_hex(&data).into_bytes() };
+            if tok.is_empty() { continue; }
+            idx += 1; if !out.wants(idx) { continue; }
+            let c = format!("n3len {} {}", which, hex(&tok));
+            out.begin(&c);
+            let mut line = if which == 0 { b". 0 IN NSEC3PARAM 1 0 0 ".to_vec() } else { b". 0 IN NSEC3 1 0 0 - ".to_vec() };
+            line.extend(&tok); line.push(b'\n');
+            let obs = match read_text(&line, None) {
+                Err(_) => "Panic".to_string(),
+                Ok(Err(_)) => "Err".to_string(),
+                Ok(Ok(v)) if v.len() == 1 => match v[0].data() {
+                    ZoneRecordData::Nsec3param(x) => format!("Ok {}", x.salt().as_slice().len()),
+                    ZoneRecordData::Nsec3(x) => format!("Ok {}", x.next_owner().as_slice().len()),
+                    _ => "Err".to_string() },
+                Ok(Ok(_)) => "Err".to_string(),
+            };
+            out.case(&c, &obs, n >= 254, "reader_nsec3_limits");
+        }
+    }
+
     // ---- T2: regular record types field by field (`rec`): the model renders the record with the
     //      schema T1 read off the type's ZonefileFmt / scan impls
     let n_rec = (if a.thorough { 400 } else { 40 }) * a.scale as usize;
@@ -1179,6 +1213,13 @@ fn main() {
         // fixed in 72650b2, must stay silent: a dohpath with a line feed, blank and non-ASCII UTF-8; an unknown key whose value is `)`
         Case { owner: vec![0], class: 1, ttl: 0, rt: 64, rdata: vec![0, 1, 0, 0, 7, 0, 5, 0x0a, 0x2d, 0x20, 0xc3, 0xa9] },
         Case { owner: vec![0], class: 1, ttl: 0, rt: 65, rdata: vec![0, 1, 0, 0x61, 0, 0, 1, 0x29] },
+        // fields of maximal length: 255-octet NSEC3 salt and next-owner hash, 255-octet char-strings, a 255-octet name
+        Case { owner: vec![0], class: 1, ttl: 0, rt: 51, rdata: { let mut v = vec![1, 0, 0, 12, 255]; v.extend((0..255u32).map(|i| (i * 7 + 3) as u8)); v } },
+        Case { owner: vec![0], class: 1, ttl: 0, rt: 50, rdata: { let mut v = vec![1, 0, 0, 12, 255]; v.extend((0..255u32).map(|i| (i * 7 + 3) as u8)); v.push(1); v.push(9); v.extend([0, 1, 0x40]); v } },
+        Case { owner: vec![0], class: 1, ttl: 0, rt: 50, rdata: { let mut v = vec![1, 0, 0, 12, 0, 255]; v.extend((0..255u32).map(|i| (i * 5 + 1) as u8)); v.extend([0, 1, 0x40]); v } },
+        Case { owner: vec![0], class: 1, ttl: 0, rt: 13, rdata: { let mut v = vec![255u8]; v.extend([b'x'; 255]); v.push(255); v.extend([b'\\'; 255]); v } },
+        Case { owner: { let mut w = Vec::new(); for n in [63usize, 63, 63, 61] { w.push(n as u8); w.extend(vec![b'n'; n]); } w.push(0); w }, class: 1, ttl: 0, rt: 2,
+               rdata: { let mut w = Vec::new(); for n in [63usize, 63, 63, 61] { w.push(n as u8); w.extend(vec![b'.'; n]); } w.push(0); w } },
         // one reproducer per known class
         Case { owner: vec![0], class: 1, ttl: 0, rt: 50, rdata: vec![1, 0, 0, 10, 0, 0, 0, 1, 0x40] },          // empty_field_NSEC3: no next-owner hash
         Case { owner: vec![0], class: 1, ttl: 0, rt: 257, rdata: vec![0, 0, b'x'] },                              // empty_field_CAA: empty tag
